@@ -39,23 +39,26 @@
 #define MAXCTX 8
 #define LONG_MS 10000
 
-enum { K_CORRECT, K_DUP, K_STALE, K_OTHER, K_NOBIT, K_EARLY, K_DELAYED, K_ECHO, K_SHORT, K_N };
-static const char *kname[K_N] = { "correct", "dup", "stale", "other-ctx", "nobit", "early", "delayed", "echo", "short" };
+enum { K_CORRECT, K_DUP, K_STALE, K_OTHER, K_NOBIT, K_EARLY, K_DELAYED, K_ECHO, K_NEIGHBOUR, K_SHORT, K_N };
+static const char *kname[K_N] = { "correct", "dup", "stale", "other-ctx", "nobit", "early", "delayed", "echo", "neighbour-id", "short" };
 
 enum { D_NORMAL, D_HOLD, D_DELAY };
 enum { M_TCPADV, M_XREP, M_REP, M_N };
 static const char *mname[M_N] = { "tcpadv", "xrep", "rep" };
 
 // status of a request (per ctx, per seq)
-enum { ST_NONE, ST_OUT, ST_ANSWERED, ST_TIMEDOUT, ST_ABORTED, ST_SUPERSEDED, ST_CONNRESET, ST_SENDFAIL, ST_N };
-static const char *stname[ST_N] = { "never-sent", "outstanding", "answered", "timed-out", "aborted", "superseded", "conn-reset", "send-failed" };
+enum { ST_NONE, ST_OUT, ST_ANSWERED, ST_TIMEDOUT, ST_ABORTED, ST_SUPERSEDED, ST_CONNRESET, ST_SENDFAIL, ST_CLOSED,
+       ST_AB_TIMEOUT, ST_AB_CANCEL, ST_AB_SUPERSEDED, ST_AB_RECVCANCEL, ST_AB_CLOSED, ST_N };
+static const char *stname[ST_N] = { "never-sent", "outstanding", "answered", "timed-out", "aborted", "superseded", "conn-reset", "send-failed", "ctx-closed",
+	// abandoned before the request reached the wire (the send was still queued):
+	"abandoned-send-timeout", "abandoned-send-cancelled", "abandoned-superseded-in-queue", "abandoned-recv-cancelled-in-queue", "abandoned-ctx-closed" };
 
-enum { OP_NORMAL, OP_SUPERSEDE, OP_TIMEOUT, OP_ABORT, OP_SENDOVER, OP_PROBE, OP_N };
-static const char *opname[OP_N] = { "normal", "supersede", "timeout", "abort", "send-over-recv", "idle-probe" };
+enum { OP_NORMAL, OP_SUPERSEDE, OP_TIMEOUT, OP_ABORT, OP_SENDOVER, OP_ABANDON, OP_PROBE, OP_N };
+static const char *opname[OP_N] = { "normal", "supersede", "timeout", "abort", "send-over-recv", "after-abandon", "idle-probe" };
 
 typedef struct {
 	int      mode, tran, nctx, npipes;
-	bool     use_sock, kills, big, rchg;
+	bool     use_sock, kills, big, rchg, blackouts;
 	long     exchanges;
 	int      retry_ms; // <= 0: infinite
 	int      tick_ms;
@@ -135,7 +138,14 @@ typedef struct {
 	bool            kills;
 	long            inj[K_N];
 	bool            inj_seen[IS_N][K_N];
-	long            held, resend_seen, killed, early_unread, requests, id_reuse;
+	long            held, resend_seen, killed, early_unread, requests, id_reuse, nblackouts;
+	uint32_t       *wire[MAXCTX]; // wire[c][seq]: id with which ctx c's request seq was seen
+	uint32_t        wire_cap;
+	bool            blackouts;
+	long            next_blackout; // request count at which the next one starts
+	int             neigh_den;     // 1/neigh_den of new requests get neighbour-id replies
+	_Atomic bool    blackout;      // no connection is served or accepted
+	_Atomic uint64_t blackout_until;
 	_Atomic uint32_t serial;
 	_Atomic bool     stop;
 } adv;
@@ -156,6 +166,14 @@ adv_init(const casecfg *cc)
 	A.nrecent  = 0;
 	A.delay_ms = cc->retry_ms > 0 ? cc->retry_ms : 10;
 	A.kills    = cc->kills;
+	A.blackouts = cc->blackouts;
+	A.nblackouts = 0;
+	A.next_blackout = 60 + (long) vf_below(&A.rng, 150);
+	A.neigh_den = cc->blackouts ? 2 : 6;
+	A.wire_cap = (uint32_t) (cc->exchanges * 2 + 64);
+	for (int i = 0; i < MAXCTX; i++) A.wire[i] = calloc(A.wire_cap, sizeof(uint32_t));
+	atomic_store(&A.blackout, false);
+	atomic_store(&A.blackout_until, 0);
 	memset(A.inj, 0, sizeof(A.inj));
 	memset(A.inj_seen, 0, sizeof(A.inj_seen));
 	A.held = A.resend_seen = A.killed = A.early_unread = A.requests = A.id_reuse = 0;
@@ -171,6 +189,10 @@ adv_fini(void)
 {
 	free(A.tab);
 	A.tab = NULL;
+	for (int i = 0; i < MAXCTX; i++) {
+		free(A.wire[i]);
+		A.wire[i] = NULL;
+	}
 	pthread_mutex_destroy(&A.mtx);
 }
 
@@ -236,6 +258,40 @@ adv_extra(uint32_t cur_id, pframe *out)
 	return 1;
 }
 
+// the id with which ctx c's request 'seq' was seen on the wire (0: not yet)
+static uint32_t
+adv_wire_id(int c, uint32_t seq)
+{
+	uint32_t id = 0;
+	pthread_mutex_lock(&A.mtx);
+	if (A.wire[c] != NULL && seq < A.wire_cap) id = A.wire[c][seq];
+	pthread_mutex_unlock(&A.mtx);
+	return id;
+}
+
+// Replies carrying ids next to one just seen, which the adversary has NOT
+// seen: ids are handed out sequentially, so these are the ids of requests that
+// never reached the wire (abandoned while queued), or not yet.  A.mtx held.
+static int
+adv_neighbours(uint32_t id, uint32_t tag, uint32_t seq, pframe *out)
+{
+	static const int d[4] = { -1, -2, -3, 1 };
+	int              n = 0;
+	for (int i = 0; i < 4; i++) {
+		uint32_t nid = (id + (uint32_t) d[i]) | 0x80000000u;
+		if (nid == id || id_lookup(nid, false) != NULL) continue;
+		out[n].idword = nid;
+		out[n].tag = tag; // (tag, seq) of the request that was seen
+		out[n].seq = seq;
+		out[n].klass = K_NEIGHBOUR;
+		out[n].defer_ms = 0;
+		A.inj[K_NEIGHBOUR]++;
+		A.inj_seen[IS_LATEST_OPEN][K_NEIGHBOUR] = true;
+		n++;
+	}
+	return n;
+}
+
 static void
 adv_account(idrec *e, int c, int klass)
 {
@@ -255,6 +311,16 @@ adv_plan(uint32_t id, uint32_t tag, uint32_t seq, bool early, long unread, pfram
 	pthread_mutex_lock(&A.mtx);
 	idrec *e = id_lookup(id, true);
 	A.requests++;
+	bool fresh = e->seen == 0;
+	if (c < MAXCTX && seq < A.wire_cap) A.wire[c][seq] = id;
+	if (A.blackouts && A.requests >= A.next_blackout && !atomic_load(&A.blackout)) {
+		// drop every connection and accept none for a while: requests
+		// sent meanwhile stay queued inside the REQ socket
+		A.next_blackout = A.requests + 40 + (long) vf_below(&A.rng, 160);
+		A.nblackouts++;
+		atomic_store(&A.blackout_until, vf_now_ns() + (uint64_t) vf_range(&A.rng, 8, 25) * 1000000ULL);
+		atomic_store(&A.blackout, true);
+	}
 	if (e->seen == 0) {
 		e->tag = tag;
 		e->seq = seq;
@@ -279,6 +345,7 @@ adv_plan(uint32_t id, uint32_t tag, uint32_t seq, bool early, long unread, pfram
 	uint32_t k = vf_below(r, 100);
 	int npre = again ? 0 : k < 45 ? 0 : k < 75 ? 1 : k < 92 ? 2 : 3;
 	for (int i = 0; i < npre; i++) n += adv_extra(id, &out[n]);
+	if (fresh && vf_chance(r, 1, (uint32_t) A.neigh_den)) n += adv_neighbours(id, tag, seq, &out[n]);
 	if (dir == D_HOLD) {
 		A.held++;
 	} else {
@@ -335,7 +402,8 @@ adv_account_deferred(pframe *f)
 	pthread_mutex_unlock(&A.mtx);
 }
 
-// reply body: vf body echoing (tag, seq) of the id, then {serial, class}
+// reply body: vf body echoing (tag, seq) of the id, then {serial, class, id word}
+#define TRAILER 12
 static size_t
 build_reply(uint8_t *buf, const pframe *f)
 {
@@ -344,7 +412,8 @@ build_reply(uint8_t *buf, const pframe *f)
 	vf_body_make(buf, bl, f->tag, f->seq);
 	put32(buf + bl, serial);
 	put32(buf + bl + 4, (uint32_t) f->klass);
-	return bl + 8;
+	put32(buf + bl + 8, f->idword);
+	return bl + TRAILER;
 }
 
 // ------------------------------------------------------------ tcp adversary
@@ -402,10 +471,11 @@ tcp_conn_thread(void *arg)
 				i++;
 			}
 		}
-		int to = 50;
+		if (atomic_load(&A.blackout)) break; // drop the connection
+		int to = A.blackouts ? 2 : 50;
 		if (next != 0) {
 			to = (int) ((next - now) / 1000000) + 1;
-			if (to > 50) to = 50;
+			if (to > (A.blackouts ? 2 : 50)) to = A.blackouts ? 2 : 50;
 		}
 		struct pollfd p = { fd, POLLIN, 0 };
 		int           pr = poll(&p, 1, to);
@@ -432,7 +502,7 @@ tcp_conn_thread(void *arg)
 		}
 		bool   early = rest >= 65536 && vf_chance(&lr, 3, 4);
 		bool   kill = false;
-		pframe pl[8];
+		pframe pl[16];
 		int    n = 0;
 		if (early) {
 			// answer before the request body has been read (and, with the
@@ -503,7 +573,14 @@ tcp_accept_thread(void *arg)
 {
 	(void) arg;
 	while (!atomic_load(&A.stop)) {
-		int fd = vf_tcp_accept(T.lfd, 20);
+		if (atomic_load(&A.blackout)) {
+			if (vf_now_ns() < atomic_load(&A.blackout_until)) {
+				vf_msleep(1);
+				continue;
+			}
+			atomic_store(&A.blackout, false);
+		}
+		int fd = vf_tcp_accept(T.lfd, A.blackouts ? 2 : 20);
 		if (fd < 0) continue;
 		if (T.nconns >= 512) {
 			close(fd);
@@ -577,7 +654,7 @@ xrep_thread(void *arg)
 			continue;
 		}
 		nng_msg_free(m);
-		pframe pl[8];
+		pframe pl[16];
 		bool   kill = false;
 		int    n = adv_plan(id, tag, (uint32_t) seq, false, 0, pl, &kill);
 		for (int i = 0; i < n; i++) {
@@ -675,7 +752,7 @@ typedef struct {
 	bool           is_sock;
 	nng_socket     sock;
 	nng_ctx        ctx;
-	nng_aio       *saio, *raio;
+	nng_aio       *saio, *saio2, *raio;
 	const casecfg *cc;
 	vf_rng         rng;
 	long           quota;
@@ -687,8 +764,13 @@ typedef struct {
 	int            cur_retry;
 	// evidence
 	long dlv[K_N], ops[OP_N], estate_ok, connreset, premature, timeouts, abort_won, abort_lost, clobbered, over_cancelled, over_delivered, retry_changes, sends;
+	long abandoned[ST_N], abandon_sent, neigh_collision, neigh_unjudged;
 	bool dlv_seen[OP_N][K_N];
 } cthr;
+
+// pipes may vanish under the contexts (then ECONNRESET is a legal outcome
+// when resending is disabled)
+#define LOSSY(cc) ((cc)->kills || (cc)->blackouts)
 
 static uint32_t
 mktag(const cthr *t, int dir)
@@ -818,13 +900,14 @@ judge(cthr *t, nng_msg *m, uint32_t expect, int op)
 	size_t         len = nng_msg_len(m);
 	uint32_t       tag, serial, kl;
 	uint64_t       seq64;
-	if (len < VF_BODY_MIN + 8 || vf_body_check(b, len - 8, &tag, &seq64) != 0) {
+	if (len < VF_BODY_MIN + TRAILER || vf_body_check(b, len - TRAILER, &tag, &seq64) != 0) {
 		vf_violation("C04/reply-garbled", "ctx %d op %s: delivered a %zu-byte message that is not one of the replies sent", t->idx, opname[op], len);
 		nng_msg_free(m);
 		return;
 	}
-	serial = get32(b + len - 8);
-	kl     = get32(b + len - 4);
+	serial = get32(b + len - 12);
+	kl     = get32(b + len - 8);
+	uint32_t idword = get32(b + len - 4);
 	if (kl >= K_N) kl = K_N - 1;
 	uint32_t seq = (uint32_t) seq64;
 	int      c = (int) (tag & 0xff);
@@ -836,6 +919,27 @@ judge(cthr *t, nng_msg *m, uint32_t expect, int op)
 	if (mark_delivered(serial)) {
 		vf_violation("C04/at-most-once/frame-delivered-twice", "ctx %d op %s: reply frame #%u (%s, for ctx %d seq %u) was delivered a second time", t->idx, opname[op], serial, kname[kl], c, seq);
 		bad = true;
+	}
+	if (!bad && kl == K_NEIGHBOUR) {
+		// A reply with an id the peer never saw.  It may legitimately hit
+		// a request that is (or was about to be) on the wire with exactly
+		// that id; it must never be taken for a request known to be on
+		// the wire with a different id.
+		uint32_t wid = expect != 0 ? adv_wire_id(t->idx, expect) : 0;
+		if (expect == 0 || (wid != 0 && wid != idword)) {
+			char key[128];
+			int  st = (expect > 1 && expect - 1 < t->status_cap) ? t->status[expect - 1] : t->last_state;
+			snprintf(key, sizeof(key), "C04/unknown-id-delivered/neighbour-id-after-%s", stname[st]);
+			vf_violation(key, "ctx %d op %s: outstanding request seq %u is on the wire with id %08x, yet reply frame #%u carrying id %08x (never sent by anyone; the context's previous request was %s) was delivered as its answer", t->idx, opname[op], expect, wid, serial, idword, stname[st]);
+		} else if (wid == idword) {
+			t->neigh_collision++;
+			t->dlv[kl]++;
+			t->dlv_seen[op][kl] = true;
+		} else {
+			t->neigh_unjudged++; // current request not seen on the wire yet
+		}
+		nng_msg_free(m);
+		return;
 	}
 	if (!bad && kl == K_NOBIT) {
 		char key[96];
@@ -882,7 +986,7 @@ probe_idle(cthr *t)
 		judge(t, m, 0, OP_PROBE);
 	} else if (rv == NNG_ESTATE) {
 		t->estate_ok++;
-	} else if (rv == NNG_ECONNRESET && t->cc->kills && t->cc->retry_ms <= 0) {
+	} else if (rv == NNG_ECONNRESET && LOSSY(t->cc) && t->cc->retry_ms <= 0) {
 		t->connreset++; // the one-shot "your pipe went away" notice
 	} else {
 		char key[96];
@@ -906,7 +1010,7 @@ recv_expect(cthr *t, int op)
 	if (rv == 0) {
 		set_status(t, cur, ST_ANSWERED);
 		judge(t, m, cur, op);
-	} else if (rv == NNG_ECONNRESET && t->cc->kills && t->cc->retry_ms <= 0) {
+	} else if (rv == NNG_ECONNRESET && LOSSY(t->cc) && t->cc->retry_ms <= 0) {
 		set_status(t, cur, ST_CONNRESET);
 		t->connreset++;
 	} else if (rv == NNG_ETIMEDOUT && el < LONG_MS * 9 / 10) {
@@ -918,6 +1022,178 @@ recv_expect(cthr *t, int op)
 		vf_violation(key, "ctx %d: the reply for seq %u was sent by the peer but receive failed after %llu ms: %s (mode %s, retry %d ms)", t->idx, cur, (unsigned long long) el, nng_strerror(rv), mname[t->cc->mode], t->cc->retry_ms);
 		set_status(t, cur, ST_TIMEDOUT);
 	}
+}
+
+// asynchronous halves of a send, for the operations that abandon a request
+// while it is (possibly) still queued inside the socket
+static uint32_t
+t_send_begin(cthr *t, int dir, nng_aio *aio, int timeout_ms)
+{
+	nng_msg *m;
+	size_t   size = req_size(t, false);
+	if (nng_msg_alloc(&m, size) != 0) vf_harness_fail("msg alloc");
+	uint32_t seq = ++t->seq;
+	vf_body_make(nng_msg_body(m), size, mktag(t, dir), seq);
+	if (t->cur != 0) {
+		set_status(t, t->cur, ST_SUPERSEDED);
+		t->cur = 0;
+	}
+	nng_aio_set_msg(aio, m);
+	nng_aio_set_timeout(aio, timeout_ms);
+	if (t->is_sock) {
+		nng_socket_send(t->sock, aio);
+	} else {
+		nng_ctx_send(t->ctx, aio);
+	}
+	return seq;
+}
+
+// returns the send's result; 0: the request went to a pipe and is outstanding
+static int
+t_send_end(cthr *t, nng_aio *aio, uint32_t seq)
+{
+	nng_aio_wait(aio);
+	int rv = nng_aio_result(aio);
+	if (rv == 0) {
+		t->sends++;
+		set_status(t, seq, ST_OUT);
+		t->cur = seq;
+	} else {
+		nng_msg *m = nng_aio_get_msg(aio);
+		nng_aio_set_msg(aio, NULL);
+		if (m != NULL) nng_msg_free(m);
+	}
+	return rv;
+}
+
+static void probe_idle(cthr *t);
+static void recv_expect(cthr *t, int op);
+
+// Abandon a request, if possible before it reaches the wire (no usable pipe:
+// the send is queued), then send the next request on the same context.  The
+// abandoned request's id must be dead: the peer answers the new request's id
+// R and also R-1, R-2, ... (neighbour-id replies).
+static void
+op_abandon(cthr *t)
+{
+	const casecfg *cc = t->cc;
+	vf_rng        *r = &t->rng;
+	nng_msg       *m;
+	int            variant = (int) vf_below(r, t->is_sock ? 4 : 5);
+	uint32_t       a, b;
+	int            rv, rv2;
+	bool           unexpected = false;
+	switch (variant) {
+	case 0: // send timeout
+		a = t_send_begin(t, D_NORMAL, t->saio, (int) vf_range(r, 1, 3));
+		rv = t_send_end(t, t->saio, a);
+		if (rv == NNG_ETIMEDOUT) {
+			set_status(t, a, ST_AB_TIMEOUT);
+			t->abandoned[ST_AB_TIMEOUT]++;
+		} else if (rv != 0) {
+			unexpected = true;
+		}
+		break;
+	case 1: // nng_aio_cancel of the send
+		a = t_send_begin(t, D_NORMAL, t->saio, LONG_MS);
+		if (vf_chance(r, 1, 2)) vf_usleep((int) vf_below(r, 300));
+		nng_aio_cancel(t->saio);
+		rv = t_send_end(t, t->saio, a);
+		if (rv == NNG_ECANCELED) {
+			set_status(t, a, ST_AB_CANCEL);
+			t->abandoned[ST_AB_CANCEL]++;
+		} else if (rv != 0) {
+			unexpected = true;
+		}
+		break;
+	case 2: // a new send while the old one is queued
+		a = t_send_begin(t, D_NORMAL, t->saio, LONG_MS);
+		if (vf_chance(r, 1, 2)) vf_usleep((int) vf_below(r, 300));
+		b = t_send_begin(t, D_NORMAL, t->saio2, LONG_MS);
+		rv = t_send_end(t, t->saio, a); // 0: it had been sent already
+		t->cur = 0;
+		if (rv == NNG_ECANCELED) {
+			set_status(t, a, ST_AB_SUPERSEDED);
+			t->abandoned[ST_AB_SUPERSEDED]++;
+		} else if (rv == 0) {
+			set_status(t, a, ST_SUPERSEDED);
+		} else {
+			unexpected = true;
+		}
+		rv2 = t_send_end(t, t->saio2, b);
+		if (rv2 != 0) {
+			char key[96];
+			snprintf(key, sizeof(key), "C04/disturbed/send-failed/%s", errname(rv2));
+			vf_violation(key, "ctx %d: request seq %u (sent over a queued one) failed: %s", t->idx, b, nng_strerror(rv2));
+			set_status(t, b, ST_SENDFAIL);
+			return;
+		}
+		if (!unexpected) {
+			if (rv == NNG_ECANCELED) t->abandon_sent++;
+			recv_expect(t, rv == NNG_ECANCELED ? OP_ABANDON : OP_SUPERSEDE);
+			return;
+		}
+		break;
+	case 3: // the receive is posted early and cancelled while the send is queued
+		a = t_send_begin(t, D_NORMAL, t->saio, LONG_MS);
+		t_recv_start(t, LONG_MS);
+		if (vf_chance(r, 1, 2)) vf_usleep((int) vf_below(r, 300));
+		nng_aio_cancel(t->raio);
+		rv2 = t_recv_wait(t, &m);
+		rv = t_send_end(t, t->saio, a);
+		t->cur = 0;
+		if (rv == NNG_ECANCELED) {
+			set_status(t, a, ST_AB_RECVCANCEL);
+			t->abandoned[ST_AB_RECVCANCEL]++;
+			if (rv2 == 0) judge(t, m, 0, OP_ABANDON); // nothing was ever sent
+		} else if (rv == 0) {
+			if (rv2 == 0) {
+				set_status(t, a, ST_ANSWERED);
+				judge(t, m, a, OP_ABANDON);
+			} else {
+				set_status(t, a, rv2 == NNG_ECONNRESET ? ST_CONNRESET : ST_ABORTED);
+				if (rv2 != NNG_ECANCELED && rv2 != NNG_ETIMEDOUT && !(rv2 == NNG_ECONNRESET && LOSSY(cc) && cc->retry_ms <= 0)) unexpected = true, rv = rv2;
+			}
+		} else {
+			if (rv2 == 0 && m != NULL) nng_msg_free(m);
+			unexpected = true;
+		}
+		break;
+	default: // the context is closed with the send queued; a new one replaces it
+		a = t_send_begin(t, D_NORMAL, t->saio, LONG_MS);
+		if (vf_chance(r, 1, 2)) vf_usleep((int) vf_below(r, 300));
+		nng_ctx_close(t->ctx);
+		rv = t_send_end(t, t->saio, a);
+		t->cur = 0;
+		if (rv == NNG_ECLOSED) {
+			set_status(t, a, ST_AB_CLOSED);
+			t->abandoned[ST_AB_CLOSED]++;
+		} else if (rv == 0) {
+			set_status(t, a, ST_CLOSED);
+		} else {
+			unexpected = true;
+		}
+		if ((rv2 = nng_ctx_open(&t->ctx, t->sock)) != 0) vf_harness_fail("ctx reopen: %s", nng_strerror(rv2));
+		break;
+	}
+	if (unexpected) {
+		char key[96];
+		snprintf(key, sizeof(key), "C04/disturbed/send-failed/%s", errname(rv));
+		vf_violation(key, "ctx %d: abandon variant %d: unexpected result %s", t->idx, variant, nng_strerror(rv));
+		set_status(t, a, ST_SENDFAIL);
+		t->cur = 0;
+		return;
+	}
+	if (t->cur != 0) {
+		// it went to a pipe after all: an ordinary request
+		recv_expect(t, OP_NORMAL);
+		return;
+	}
+	bool was_abandoned = t->last_state >= ST_AB_TIMEOUT;
+	if (vf_chance(r, 1, 3)) probe_idle(t);
+	if (t_send(t, D_NORMAL, false) != 0) return;
+	if (was_abandoned) t->abandon_sent++;
+	recv_expect(t, was_abandoned ? OP_ABANDON : OP_NORMAL);
 }
 
 static void *
@@ -932,6 +1208,15 @@ ctx_thread(void *arg)
 	probe_idle(t); // a fresh context has nothing to receive
 	for (long x = 0; x < t->quota; x++) {
 		uint32_t k = vf_below(r, 100);
+		// abandon-before-wire wants a socket without a usable pipe: mostly
+		// during the adversary's blackouts, now and then anyway (all
+		// pipes may be busy)
+		if (vf_chance(r, atomic_load(&A.blackout) ? 80 : cc->blackouts ? 8 : 4, 100)) {
+			t->ops[OP_ABANDON]++;
+			op_abandon(t);
+			if (t->cur == 0 && vf_chance(r, 1, 4)) probe_idle(t);
+			continue;
+		}
 		int      op = k < 52 ? OP_NORMAL : k < 66 ? OP_SUPERSEDE : k < 78 ? OP_TIMEOUT : k < 90 ? OP_ABORT : OP_SENDOVER;
 		t->ops[op]++;
 		switch (op) {
@@ -976,7 +1261,7 @@ ctx_thread(void *arg)
 			} else if (rv == NNG_ETIMEDOUT) {
 				set_status(t, cur, ST_TIMEDOUT);
 				t->timeouts++;
-			} else if (rv == NNG_ECONNRESET && cc->kills && cc->retry_ms <= 0) {
+			} else if (rv == NNG_ECONNRESET && LOSSY(cc) && cc->retry_ms <= 0) {
 				set_status(t, cur, ST_CONNRESET);
 				t->connreset++;
 			} else {
@@ -1010,7 +1295,7 @@ ctx_thread(void *arg)
 			} else if (rv == NNG_ECANCELED) {
 				set_status(t, cur, ST_ABORTED);
 				t->abort_won++;
-			} else if (rv == NNG_ECONNRESET && cc->kills && cc->retry_ms <= 0) {
+			} else if (rv == NNG_ECONNRESET && LOSSY(cc) && cc->retry_ms <= 0) {
 				set_status(t, cur, ST_CONNRESET);
 				t->connreset++;
 			} else {
@@ -1043,7 +1328,7 @@ ctx_thread(void *arg)
 				judge(t, m, first, op);
 			} else if (rv2 == NNG_ECANCELED) {
 				t->over_cancelled++;
-			} else if (rv2 == NNG_ECONNRESET && cc->kills && cc->retry_ms <= 0) {
+			} else if (rv2 == NNG_ECONNRESET && LOSSY(cc) && cc->retry_ms <= 0) {
 				t->connreset++;
 			} else {
 				char key[96];
@@ -1075,9 +1360,9 @@ run_case(long idx, const casecfg *cc)
 	char       url[128], durl[4][128];
 	int        rv;
 
-	vf_case_begin(idx, "mode=%s tran=%s ctx=%d%s pipes=%d exchanges=%ld retry=%d%s tick=%d kills=%d big=%d jitter=%d/%dus key=%llx",
+	vf_case_begin(idx, "mode=%s tran=%s ctx=%d%s pipes=%d exchanges=%ld retry=%d%s tick=%d kills=%d big=%d blackouts=%d jitter=%d/%dus key=%llx",
 	    mname[cc->mode], vf_tran_names[cc->tran], cc->nctx, cc->use_sock ? "+sock" : "", cc->npipes, cc->exchanges, cc->retry_ms, cc->rchg ? "(changing)" : "",
-	    cc->tick_ms, cc->kills, cc->big, cc->jit_permille, cc->jit_us, (unsigned long long) cc->key);
+	    cc->tick_ms, cc->kills, cc->big, cc->blackouts, cc->jit_permille, cc->jit_us, (unsigned long long) cc->key);
 	vf_watchdog(240);
 	adv_init(cc);
 
@@ -1155,7 +1440,7 @@ run_case(long idx, const casecfg *cc)
 		t->last_state = ST_NONE;
 		vf_rng_seed(&t->rng, cc->key, 100 + (uint64_t) i);
 		if (!t->is_sock && (rv = nng_ctx_open(&t->ctx, req)) != 0) vf_harness_fail("ctx open: %s", nng_strerror(rv));
-		if (nng_aio_alloc(&t->saio, NULL, NULL) != 0 || nng_aio_alloc(&t->raio, NULL, NULL) != 0) vf_harness_fail("aio alloc");
+		if (nng_aio_alloc(&t->saio, NULL, NULL) != 0 || nng_aio_alloc(&t->saio2, NULL, NULL) != 0 || nng_aio_alloc(&t->raio, NULL, NULL) != 0) vf_harness_fail("aio alloc");
 		if (pthread_create(&pt[i], NULL, ctx_thread, t) != 0) vf_harness_fail("pthread_create");
 	}
 	for (int i = 0; i < cc->nctx; i++) pthread_join(pt[i], NULL);
@@ -1167,6 +1452,7 @@ run_case(long idx, const casecfg *cc)
 	for (int i = 0; i < cc->nctx; i++) {
 		if (!th[i].is_sock) nng_ctx_close(th[i].ctx);
 		nng_aio_free(th[i].saio);
+		nng_aio_free(th[i].saio2);
 		nng_aio_free(th[i].raio);
 	}
 	nng_socket_close(req);
@@ -1215,6 +1501,18 @@ run_case(long idx, const casecfg *cc)
 		vf_stat("recv_cancelled_by_send", t->over_cancelled);
 		vf_stat("recv_completed_before_send", t->over_delivered);
 		vf_stat("resendtime_changes", t->retry_changes);
+		long ab = 0;
+		for (int a = ST_AB_TIMEOUT; a <= ST_AB_CLOSED; a++) {
+			snprintf(buf, sizeof(buf), "%s", stname[a]);
+			for (char *q = buf; *q; q++) if (*q == '-') *q = '_';
+			vf_stat(buf, t->abandoned[a]);
+			ab += t->abandoned[a];
+			if (t->abandoned[a]) vf_class("abandon/%s/%s/%s", mname[cc->mode], t->is_sock ? "sock" : "ctx", stname[a]);
+		}
+		vf_stat("abandoned_before_wire", ab);
+		vf_stat("requests_after_abandon", t->abandon_sent);
+		vf_stat("neighbour_id_hit_live_request", t->neigh_collision);
+		vf_stat("neighbour_id_unjudged", t->neigh_unjudged);
 		free(t->status);
 	}
 	vf_stat("replies_delivered", delivered);
@@ -1242,6 +1540,7 @@ run_case(long idx, const casecfg *cc)
 		vf_stat("resends_seen", A.resend_seen);
 		vf_stat("held_requests", A.held);
 		vf_stat("pipe_kills", A.killed);
+		vf_stat("blackouts", A.nblackouts);
 		vf_stat("early_reply_unread_bytes", A.early_unread);
 		vf_stat("id_reuse", A.id_reuse);
 	} else {
@@ -1346,6 +1645,7 @@ main(int argc, char **argv)
 		c.rchg = c.retry_ms > 0 && vf_chance(&r, 1, 3);
 		c.kills = c.mode != M_REP && vf_chance(&r, 1, 3);
 		c.big = c.mode == M_TCPADV && vf_chance(&r, 1, 3);
+		c.blackouts = c.mode == M_TCPADV && vf_chance(&r, 2, 5);
 		c.jit_permille = (int) vf_range(&r, 5, 60);
 		c.jit_us = (int) vf_range(&r, 20, 300);
 		run_case(idx, &c);
